@@ -25,18 +25,37 @@ static char evbuf[1 << 16];
 static size_t evlen;
 static long next_copy_id;
 
-#define UD(id, tag) ((void *)(intptr_t)((long)(id) * 1024 + (tag) + 1))
-#define UD_ID(u) ((long)(((intptr_t)(u) - 1) / 1024))
-#define UD_TAG(u) ((long)(((intptr_t)(u) - 1) % 1024))
+#define UD(id, tag) ((void *)(intptr_t)(((long)(id) << 24) + (tag) + 1))
+#define UD_ID(u) ((long)(((intptr_t)(u) - 1) >> 24))
+#define UD_TAG(u) ((long)(((intptr_t)(u) - 1) & 0xffffff))
 
+/* side table: the registration a node currently carries (needed when it was made with
+ * userdata == NULL: the callback then only gets the node) */
+static long curtag[MAXID];
+static long maxid;
+
+static long lookup(struct json_object *o)
+{
+	long i;
+	/* newest first: a node without a callback dies unnoticed and its address may be reused */
+	for (i = maxid < MAXID ? maxid : MAXID - 1; i >= 0; i--)
+		if (node[i] == o && !dead[i]) return i;
+	return -1;
+}
+
+/* every registration logs "<u|d><node>.<registration>" each time its callback is invoked:
+ * u = invoked by set_userdata/set_serializer (replacement), d = invoked by json_object_put */
 static void log_cb(struct json_object *o, void *ud)
 {
-	long id = UD_ID(ud), tag = UD_TAG(ud);
+	long id, tag;
+	if (ud) { id = UD_ID(ud); tag = UD_TAG(ud); }
+	else { id = lookup(o); tag = id >= 0 ? curtag[id] : -1; }
 	evlen += (size_t)snprintf(evbuf + evlen, sizeof(evbuf) - evlen, "%s%c%ld.%ld", evlen ? "," : "",
 	                          in_setud ? 'u' : 'd', id, tag);
+	if (id >= 0 && id < MAXID && node[id] != o) evlen += (size_t)snprintf(evbuf + evlen, sizeof(evbuf) - evlen, "!wrongnode");
+	if (id >= 0 && id < MAXID && ud && curtag[id] != tag) evlen += (size_t)snprintf(evbuf + evlen, sizeof(evbuf) - evlen, "!stale");
 	if (!in_setud && id >= 0 && id < MAXID) {
 		if (dead[id]) evlen += (size_t)snprintf(evbuf + evlen, sizeof(evbuf) - evlen, "!twice");
-		if (node[id] != o) evlen += (size_t)snprintf(evbuf + evlen, sizeof(evbuf) - evlen, "!wrongnode");
 		dead[id] = 1;
 		cb_alive--;
 	}
@@ -47,21 +66,29 @@ static int ser_cb(struct json_object *o, struct printbuf *pb, int level, int fla
 	return printbuf_memappend(pb, "\"x\"", 3);
 }
 
-static void install(long id, struct json_object *o, long tag, int ser)
+/* one registration: userdata NULL or not, delete callback or not, through set_userdata (ser 0),
+ * set_serializer with a NULL function (ser 1) or with a custom function (ser 2) */
+static void install(long id, struct json_object *o, long tag, int u, int d, int ser)
 {
+	void *ud = u ? UD(id, tag) : NULL;
+	json_object_delete_fn *del = d ? log_cb : NULL;
 	if (id < 0 || id >= MAXID) return;
 	in_setud = 1;
-	if (ser) json_object_set_serializer(o, ser_cb, UD(id, tag), log_cb);
-	else json_object_set_userdata(o, UD(id, tag), log_cb);
+	if (ser == 0) json_object_set_userdata(o, ud, del);
+	else json_object_set_serializer(o, ser == 2 ? ser_cb : NULL, ud, del);
 	in_setud = 0;
-	if (!hascb[id]) { hascb[id] = 1; cb_alive++; }
+	if (hascb[id] && !d) cb_alive--;
+	if (!hascb[id] && d) cb_alive++;
+	hascb[id] = (char)d;
+	curtag[id] = tag;
 }
 
 static void reg(long id, struct json_object *o)
 {
 	if (id < 0 || id >= MAXID) return;
-	node[id] = o; dead[id] = 0; hascb[id] = 0;
-	install(id, o, 0, 0);
+	node[id] = o; dead[id] = 0; hascb[id] = 0; curtag[id] = 0;
+	if (id > maxid) maxid = id;
+	install(id, o, 0, 1, 1, 0);
 }
 
 /* shallow copy that knows the userdata of this harness: a fresh id, tag 0 */
@@ -71,7 +98,8 @@ static int copy_cb(json_object *src, json_object *parent, const char *key, size_
 	if (rc < 0) return rc;
 	if (next_copy_id < MAXID) {
 		long id = next_copy_id++;
-		node[id] = *dst; dead[id] = 0; hascb[id] = 1; cb_alive++;
+		node[id] = *dst; dead[id] = 0; hascb[id] = 1; cb_alive++; curtag[id] = 0;
+		if (id > maxid) maxid = id;
 		(*dst)->_userdata = UD(id, 0);
 		(*dst)->_user_delete = log_cb;
 	}
@@ -85,7 +113,7 @@ static void reg_plain(struct json_object *o)
 	long id;
 	if (!o) return;
 	id = next_copy_id++;
-	if (id < MAXID) { node[id] = o; dead[id] = 0; hascb[id] = 0; }
+	if (id < MAXID) { node[id] = o; dead[id] = 0; hascb[id] = 0; curtag[id] = 0; if (id > maxid) maxid = id; }
 	if (json_object_get_type(o) == json_type_object) {
 		struct json_object_iter it;
 		json_object_object_foreachC(o, it) reg_plain(it.val);
@@ -101,10 +129,12 @@ static void dump(struct json_object *o, int depth)
 	if (!o) { putchar('n'); return; }
 	if (depth > 200) { printf("DEEP"); return; }
 	k = json_object_get_type(o) == json_type_object ? 'o' : json_object_get_type(o) == json_type_array ? 'a' : 's';
-	if (o->_user_delete == log_cb)
-		printf("%c%ld.%ld#%u", k, UD_ID(o->_userdata), UD_TAG(o->_userdata), (unsigned)o->_ref_count);
-	else
-		printf("%c?#%u", k, (unsigned)o->_ref_count);
+	if (o->_user_delete == log_cb) {
+		long id = o->_userdata ? UD_ID(o->_userdata) : lookup(o);
+		printf("%c%ld.%ld", k, id, o->_userdata ? UD_TAG(o->_userdata) : (id >= 0 ? curtag[id] : -1L));
+	} else
+		printf("%c?", k);
+	printf("%c#%u", json_object_get_userdata(o) ? 'u' : '-', (unsigned)o->_ref_count);
 	if (k == 'a') {
 		size_t i, n = json_object_array_length(o);
 		putchar('[');
@@ -170,18 +200,18 @@ void run_case(char *rest)
 	int first = 1;
 	long live0 = xa_live;
 	memset(node, 0, sizeof(node)); memset(dead, 0, sizeof(dead)); memset(hascb, 0, sizeof(hascb));
-	cb_alive = 0;
+	cb_alive = 0; maxid = 0;
 	while (nckey > 0) (free)(ckey[--nckey]);
 	xa_reset();
 	for (tok = strtok_r(rest, ";", &save); tok; tok = strtok_r(NULL, ";", &save)) {
-		char *a[5] = {0, 0, 0, 0, 0};
+		char *a[6] = {0, 0, 0, 0, 0, 0};
 		char *sv2 = NULL, *w;
 		int na = 0, bad = 0;
 		long ret = 0;
 		if (!first) printf(" | ");
 		first = 0;
 		evlen = 0; evbuf[0] = 0;
-		for (w = strtok_r(tok, " ", &sv2); w && na < 5; w = strtok_r(NULL, " ", &sv2)) a[na++] = w;
+		for (w = strtok_r(tok, " ", &sv2); w && na < 6; w = strtok_r(NULL, " ", &sv2)) a[na++] = w;
 		if (na == 0) { printf("BADOP"); return; }
 		if (strchr(a[0], '=') && a[0][0] == 'h') {            /* constructors */
 			char *eq = strchr(a[0], '=');
@@ -258,18 +288,10 @@ void run_case(char *rest)
 			struct json_object *p = H(a[1], &bad);
 			if (bad) { printf("DEADHANDLE"); return; }
 			ret = json_object_array_del_idx(p, (size_t)strtoull(a[2], NULL, 10), (size_t)strtoull(a[3], NULL, 10));
-		} else if ((!strcmp(a[0], "setud") || !strcmp(a[0], "setser")) && na == 3) {
+		} else if (!strcmp(a[0], "reg") && na == 6) {
 			struct json_object *o = H(a[1], &bad);
 			if (bad || !o) { printf("DEADHANDLE"); return; }
-			install(strtol(a[1] + 1, NULL, 10), o, strtol(a[2], NULL, 10), a[0][3] == 's');
-		} else if (!strcmp(a[0], "clrud") && na == 2) {
-			struct json_object *o = H(a[1], &bad);
-			long id = strtol(a[1] + 1, NULL, 10);
-			if (bad || !o) { printf("DEADHANDLE"); return; }
-			in_setud = 1;
-			json_object_set_userdata(o, NULL, NULL);
-			in_setud = 0;
-			if (hascb[id]) { hascb[id] = 0; cb_alive--; }
+			install(strtol(a[1] + 1, NULL, 10), o, strtol(a[2], NULL, 10), atoi(a[3]), atoi(a[4]), atoi(a[5]));
 		} else if (!strcmp(a[0], "ptrset") && na == 4) {
 			struct json_object *r = H(a[1], &bad), *v = H(a[3], &bad), *r0 = r;
 			char *path;
